@@ -269,3 +269,5 @@ def run(ctx):
                        "leg C reshape-ranks: sizes 12..60 (and zero-size), source and target of every rank 1..4, COO / GCXS (every compressed-axes choice, "
                        "explicit compressed_axes= for the target) / DOK, reshape + flatten + round trip; "
                        "non-trivial = array has at least one element; distinct by content hash")
+    import extra_ops  # operation tables closing the measured coverage gaps (tools/coverage_audit.py; coverage/API_COVERAGE.md)
+    extra_ops.run(ctx, PID)
